@@ -646,7 +646,7 @@ impl Parser {
                 let pos = self.expect(Operator::Arrow)?;
                 let pos1 = self.expect(Keyword::Chan)?;
                 let typ = Box::new(self.type_()?);
-                let pos = (pos, pos1);
+                let pos = (pos1, pos); // chan, <-
                 let dir = Some(ChanMode::Recv);
                 let chan = ast::ChannelType { pos, dir, typ };
                 Ok(Some(ast::Expression::TypeChannel(chan)))
